@@ -49,7 +49,7 @@ def bound(tier):
     if tier == "thorough":
         return "all strings <=5 over 28 chars; all fragment sequences <=3 over 74 fragments and 4 over 24 fragments x 2 separators; token mutations of 8 programs"
     return ("all strings <=4 over 28 chars; all fragment sequences <=2 over 74 fragments and of length 3 over 42 core fragments, x 2 separators; "
-            "token mutations of 8 programs; 18 constructs x all <=3-deep wrapper nestings x table on/off; pathological nesting/recursion family; all loop-bound pairs in [-3,3]^2")
+            "token mutations of 8 programs; 18 constructs x all <=3-deep wrapper nestings x table on/off; pathological nesting/recursion family incl. 72 runaway self-applications (1-3 per level x 6 guards); all loop-bound pairs in [-3,3]^2")
 
 
 def cases(tier, seed):
@@ -234,6 +234,14 @@ def run_special():
     texts += [f"*=0x018000\n.include_ips '{name}', 0\n.db 1\n" for name in sorted(ipsfiles)]
     # unterminated strings of growing length (a scan time that doubles per character shows up as budget exhaustion)
     texts += [".ascii '" + "a" * n for n in (8, 16, 24, 32, 48, 64, 200)] + [".ascii '" + "ab " * n + "\n.db 1\n" for n in (10, 20, 40)]
+    # runaway recursion: a macro that applies itself k times per level, each application behind a guard; the first
+    # application already exhausts the recursion limit, which must end the assembly (not be retried level by level)
+    for k in (1, 2, 3):
+        for guard in ("", ".if en {", "{", ".for q := 0, 1 {", ".if nosuchname {\n} .else {", ".scope gs {"):
+            for emit in ("", ".db 1\n"):
+                app = (guard + "\n" + emit + "grow()\n" + ("}\n" if guard else "")) * k
+                texts.append("en := 1\n.macro grow() {\n" + app + "}\ngrow()\n")
+                texts.append("en := 1\n.macro grow(n) {\n" + app.replace("grow()", "grow(n+1)") + "}\n*=0x018000\ngrow(0)\n")
     for t in texts:
         evals += run_input(t, ENTRIES_PROG, viol, stats, big=True)
     # every loop-bound pair, literal and through constants / macro parameters: empty and reversed ranges must simply end
